@@ -17,7 +17,10 @@ use std::str::FromStr;
 use std::string::ToString;
 use std::sync::atomic::{AtomicU32, Ordering};
 use std::sync::mpsc::{channel, Receiver, Sender};
+#[cfg(not(feature = "Verif_Hooks"))]
 use std::sync::{Arc, Mutex};
+#[cfg(feature = "Verif_Hooks")]
+use {crate::verif_sync::Mutex, std::sync::Arc};
 use std::thread::JoinHandle;
 use std::{fmt, thread};
 
